@@ -93,6 +93,7 @@ inductive Err where
   | ok
   | io          -- SQFS_ERROR_IO
   | oob         -- SQFS_ERROR_OUT_OF_BOUNDS
+  | compressor  -- SQFS_ERROR_COMPRESSOR (only produced by the xfrm streams)
   | fuel        -- model only: loop bound exceeded (proved unreachable)
   deriving DecidableEq, Repr
 
